@@ -204,6 +204,32 @@ def build_queries(c):
             # crate-level type aliases referring to core::V4 etc. (module `core` of the backend crates)
             for d in defs.get((("core",), m.group(1)), []):
                 refs.append(("%s:%d uses core::%s" % (it.file, it.line, m.group(1)), it.guard, ("guard", d.guard)))
+    # names imported by a cfg-guarded `use` in the same module and mentioned by another item there
+    for u in items:
+        if u.kind != "use" or u.guard == ("true",):
+            continue
+        body = re.sub(r"\s+", " ", u.text)
+        m = re.search(r"use\s+(.*);", body)
+        if not m:
+            continue
+        path = m.group(1)
+        inner = re.search(r"\{(.*)\}", path)
+        names_ = [x.strip() for x in inner.group(1).split(",")] if inner else [path]
+        imported = []
+        for n in names_:
+            n = n.split(" as ")[-1].strip().split("::")[-1].strip()
+            if re.fullmatch(r"[A-Za-z_][A-Za-z0-9_]*", n) and n not in ("self", "super", "crate"):
+                imported.append(n)
+        for it in items:
+            if it is u or it.kind == "use" or tuple(it.modpath) != tuple(u.modpath):
+                continue
+            for n in imported:
+                if re.search(r"(?<![A-Za-z0-9_:])%s(?![A-Za-z0-9_])" % re.escape(n), it.text):
+                    # unless another unguarded / compatible import or definition of the same name exists: handled by the solver
+                    others = [x for x in items if x is not u and x.kind == "use" and tuple(x.modpath) == tuple(u.modpath) and re.search(r"(?<![A-Za-z0-9_])%s(?![A-Za-z0-9_])" % re.escape(n), x.text)]
+                    defs_here = defs.get((tuple(u.modpath), n), [])
+                    alts = [x.guard for x in others] + [d.guard for d in defs_here]
+                    refs.append(("%s:%d uses `%s`, imported by the cfg-guarded use at line %d" % (it.file, it.line, n, u.line), it.guard, ("any_guard", [u.guard] + alts)))
     # supertrait obligations
     for trait, arg, ty, it in impls:
         for req, how in SUPERTRAITS.get(trait, []):
